@@ -238,7 +238,6 @@ func VC05Silent() {
 	vrt.Assert(ok, "c05.silent")
 }
 
-
 // VC05Label: label operands of DW/DD with the origin a solver variable over
 // 0..2^24: each element is the low 16/32 bits of the label's address, also
 // when the address does not fit the element.
